@@ -562,11 +562,14 @@ class FieldCollection(FieldBase):
             label (str, optional):
                 Name of the returned field
             dtype (numpy dtype):
-                The data type of the field. If omitted, it will be determined from
-                `data` automatically.
+                The data type of the field. If omitted, the data type of the collection
+                is kept.
         """
         if label is None:
             label = self.label
+        if dtype is None:
+            # keep the data type of the fields (which is that of the collection)
+            dtype = np.result_type(*(f.dtype for f in self.fields))
         fields = [f.copy() for f in self.fields]
 
         # create the collection from the copied fields
